@@ -79,6 +79,11 @@ def render(name, s, e, nlook, prefix=None):
         between = [E.ev('BSC_getuid', 1, OTHER), E.ev('MACH_WAIT', 0, OTHER)]
     if prefix == 'two-lost-ends-before':
         pre = [E.ev('BSC_getuid', 1, OTHER), E.ev(name, 1, prefix_events(name, s, 'stale-start')[0].values)]
+    if prefix == 'same-thread-crossing':
+        # overlapping, not nested, on ONE thread: other.START mine.START other.END mine.END
+        oth = 'BSC_getppid' if name != 'BSC_getppid' else 'BSC_getpid'
+        pre = [E.ev(oth, 1, OTHER)]
+        between = [E.ev(oth, 2, (0, 0x9e9e, 0x9f9f, 0x9a9a))]
     if prefix == 'long-window':
         # 5000 stand-alone records of the same thread (with words that are nobody's argument) between START and END
         between = [E.ev('MACH_vm_page_release' if i % 2 else 'MACH_WAIT', 0, OTHER) for i in range(5000)]
@@ -154,7 +159,7 @@ class C09(Check):
             'enum-valued positions (frozen table) over every member, ioctl request over Darwin _IOC words - x 3 END tuples '
             '(success, failure, other values) with 0 lookups, every point with <=2 non-default words with 2 nested lookups, and every '
             'point with <=1 non-default word preceded by {an earlier START of the same call whose END was lost, a stray END, the same '
-            'call still open on another thread (parser built with a populated thread map; also crossing: A.START B.START A.END B.END), another call still open on the same thread, another call opened inside the window and still open at its END, two calls whose ENDs were lost} carrying words that never equal an '
+            'call still open on another thread (parser built with a populated thread map; also crossing: A.START B.START A.END B.END), another call still open on the same thread, another call opened inside the window and still open at its END, two calls whose ENDs were lost, another call of the same thread that started before and ends inside the window (overlapping, not nested)} carrying words that never equal an '
             'enumerated one; windows whose nested lookups carry timestamps below the START tick and whose END carries the START tick; two consecutive calls per decoder read from v2 / v3 dump files whose records all carry the same timestamp; and one window per decoder with 5000 stand-alone same-thread records between START and END. '
             'Oracle: every integer-literal token at position k is one of the renderings {u64, i64, u32, i32 decimal; u64, u32 hex} of '
             'START word k in every run; no numeric token beyond position 3; call part identical across END tuples. Distinct by '
@@ -221,7 +226,7 @@ class C09(Check):
             for s in deviation_bounded(doms, 1):
                 if name in ('BSC_getsockopt', 'BSC_setsockopt') and s[1] in (1, 0xffff):
                     continue
-                for prefix in ('stale-start', 'stray-end', 'other-thread-open', 'other-thread-crossing', 'other-call-open', 'other-call-opened-inside', 'two-lost-ends-before', 'odd-timestamps') + (('long-window',) if s == tuple(d[0] for d in doms) else ()):
+                for prefix in ('stale-start', 'stray-end', 'other-thread-open', 'other-thread-crossing', 'other-call-open', 'other-call-opened-inside', 'two-lost-ends-before', 'odd-timestamps', 'same-thread-crossing') + (('long-window',) if s == tuple(d[0] for d in doms) else ()):
                     nl = 2 if prefix == 'odd-timestamps' else 0
                     bad, call = judge(name, s, nl, prefix)
                     self._acc(acc, name, s, nl, (bad[0] + ':after-' + prefix, bad[1]) if bad else None, call, prefix)
